@@ -28,7 +28,7 @@ var debugAttempts = os.Getenv("VERIF_DEBUG") != ""
 // c09Case is one RPC attempt against a contract of N sectors. It is the unit
 // of enumeration, of witnesses and of replay.
 type c09Case struct {
-	Kind string `json:"kind"` // free | append | roots | fund | replenish
+	Kind string `json:"kind"` // free | append | roots | fund | replenish | renew | refresh-full | refresh-partial | publish | reorg
 	Via  string `json:"via"`  // raw | honest
 	N    int    `json:"n"`    // contract size the attempt starts from (-1: whatever it is)
 
@@ -43,6 +43,11 @@ type c09Case struct {
 	Variant string      `json:"variant,omitempty"` // renter misbehaviour, see c09Variants
 	Drained bool        `json:"drained,omitempty"` // renter payout drained first: host must fail on payment
 	List    string      `json:"list,omitempty"`    // after success: "" none | full | all ranges
+	// publish: broadcast the doubly signed revision Back steps before the latest
+	// one (among those newer than the on-chain one) and mine Depth blocks;
+	// reorg: replace the last Depth blocks by a longer empty fork
+	Back  int `json:"back,omitempty"`
+	Depth int `json:"depth,omitempty"`
 }
 
 // renter-side misbehaviours of the raw client in multi-round RPCs
@@ -71,14 +76,18 @@ type c09 struct {
 	stored []*rhplab.TestSector
 	isStor map[types.Hash256]*rhplab.TestSector
 
-	acctKey   types.PrivateKey
-	acct      proto4.Account
-	repl      []proto4.Account // replenish targets (accounts or pools share keys)
-	readOK    map[types.Hash256]bool
-	rng       *rand.Rand
-	history   []c09Case // attempts since the last case boundary (for witnesses)
-	histStart int       // contract size at that boundary
-	broken    bool      // host state of the current contract is known to be corrupt
+	acctKey    types.PrivateKey
+	acct       proto4.Account
+	repl       []proto4.Account // replenish targets (accounts or pools share keys)
+	readOK     map[types.Hash256]bool
+	rng        *rand.Rand
+	history    []c09Case              // attempts since the last case boundary (for witnesses)
+	histStart  int                    // contract size at that boundary
+	revs       []types.V2FileContract // doubly signed revisions of the current contract, oldest first
+	formedAt   uint64                 // height at which the current contract was confirmed
+	afterChain string                 // the running attempt follows this chain event
+	renewals   int
+	broken     bool // host state of the current contract is known to be corrupt
 }
 
 const c09Stored = 12
@@ -120,6 +129,8 @@ func (c *c09) freshContract() error {
 	c.model = nil
 	c.history = nil
 	c.broken = false
+	c.revs, c.renewals, c.afterChain = nil, 0, ""
+	c.formedAt = c.lab.CM.Tip().Height
 	c.r.Count("contracts_formed", 1)
 	return nil
 }
@@ -204,6 +215,12 @@ func (c *c09) attempt(cs c09Case, setup bool) error {
 			return err
 		}
 		c.boundary()
+	}
+	switch cs.Kind {
+	case "publish", "reorg":
+		return c.chainStep(cs)
+	case "renew", "refresh-full", "refresh-partial":
+		return c.renewal(cs)
 	}
 	if cs.Drained {
 		if err := c.drain(); err != nil {
@@ -327,6 +344,12 @@ func (c *c09) attempt(cs c09Case, setup bool) error {
 				map[string]any{"listed": shortRoots(out.listed), "model": shortRoots(c.model)})
 		}
 		c.model = slices.Clone(post.State.Roots)
+		if n := len(c.revs); n == 0 || c.revs[n-1].RevisionNumber < post.State.Revision.RevisionNumber {
+			c.revs = append(c.revs, post.State.Revision)
+		}
+		if c.afterChain != "" {
+			c.r.Count("rpcs_succeeded_after_chain_event", 1)
+		}
 		c.r.SetAdd("states", fmt.Sprintf("%d:%s", len(c.model), cs.Kind))
 	} else {
 		c.r.Count("failed_"+cs.Kind, 1)
@@ -340,6 +363,10 @@ func (c *c09) attempt(cs c09Case, setup bool) error {
 				}
 				c.violation("listing-failed:"+why, "a range of the contract cannot be listed with a proof the honest client accepts: "+errText(out.err), cs,
 					map[string]any{"model": shortRoots(c.model), "host": shortRoots(post.State.Roots)})
+			} else if c.afterChain != "" {
+				c.broken = true
+				c.violation("rpc-failed-after-chain-event:"+c.afterChain, "after the chain confirmed or reverted a revision of the contract, an honest well-formed "+cs.Kind+" fails: "+errText(out.err), cs,
+					map[string]any{"host_revision": post.State.Revision.RevisionNumber, "host_roots": len(post.State.Roots)})
 			} else {
 				c.r.Count("unexpected_failures", 1)
 				c.r.Inconclusive(fmt.Sprintf("honest well-formed %s failed: %v (case %+v)", cs.Kind, out.err, cs))
@@ -400,6 +427,7 @@ func (c *c09) attempt(cs c09Case, setup bool) error {
 			return err
 		}
 	}
+	c.afterChain = ""
 	c.lab.Mux.Forget(c.lab.Mux.Streams())
 	c.lab.Log.Trim(c.lab.Log.Seq())
 	return nil
@@ -1063,6 +1091,8 @@ func c09Jobs(r *mon.Run) []c09Job {
 			jobs = append(jobs, c09Job{name: fmt.Sprintf("F-sequences-%d", j), seqs: seqs})
 		}
 	}
+	jobs = append(jobs, c09ChainJobs(r)...)
+
 	// split big jobs over several labs (the workload is latency-bound)
 	const chunk = 160
 	var split []c09Job
@@ -1095,6 +1125,10 @@ func runC09(r *mon.Run, replay string) {
 	r.Floor("concurrent_commits", 5)
 	r.Floor("success_replenish", 4)
 	r.Floor("committed_after_renter_gave_up", 10)
+	r.Floor("older_revisions_confirmed_on_chain", 30)
+	r.Floor("reorgs_reverting_a_confirmed_revision", 5)
+	r.Floor("rpcs_succeeded_after_chain_event", 60)
+	r.Floor("renewals_with_capacity_above_filesize", 20)
 	start := time.Now()
 	jobs := c09Jobs(r)
 	total := 0
@@ -1149,6 +1183,12 @@ func c09RunJob(r *mon.Run, ji int, job c09Job) error {
 		}
 	}
 	for _, seq := range job.seqs {
+		if slices.ContainsFunc(seq, func(cs c09Case) bool { return cs.Kind == "renew" || cs.Kind == "publish" }) {
+			// renewals push the proof height out, publications need a clean start
+			if err := c.freshContract(); err != nil {
+				return err
+			}
+		}
 		if err := c.ensureSize(0); err != nil {
 			return err
 		}
